@@ -534,4 +534,168 @@ Section Built.
       apply in_app_iff in Hy. destruct Hy as [Hy|Hy]; [left; exact Hy|right].
       destruct (nul_seq NTb _); [auto|destruct Hy].
   Qed.
+
+  (* ---- every annotated item passes item_ok ------------------------------------------------- *)
+  Lemma eff_L_pd p d : eff_L stop (litem_pd p d) = if p =? 0 then [stop] else fget fo (lhs_of ps p).
+  Proof. reflexivity. Qed.
+
+  Lemma existsb_action a l : In a l -> existsb (action_eqb a) l = true.
+  Proof.
+    intros H. apply existsb_exists. exists a. split; [exact H|].
+    destruct a; cbn; [apply Nat.eqb_refl|apply N.eqb_refl|reflexivity].
+  Qed.
+
+  Lemma prods_of_g0 b : prods_of g0 b = prods_of ps b.
+  Proof. apply prods_of_same_lhs. exact map_lhs_g0. Qed.
+
+  Lemma prods_of_nonzero b q d p : In q (prods_of ps b) -> sym_at ps e p d = Some (NT b) ->
+    q <> 0 /\ lhs_of ps q = b /\ (N.to_nat b < nnts)%nat.
+  Proof.
+    intros Hq Hs. pose proof (prods_of_lhs ps b q Hq) as Hl. split; [|split; [exact Hl|]].
+    - intros ->. rewrite lhs_of_0 in Hl. subst b. exact (aug_not_in_raw p d Hs).
+    - unfold prods_of in Hq. apply in_map_iff in Hq. destruct Hq as (k & <- & Hk).
+      apply filter_In in Hk. destruct Hk as [_ Hk].
+      destruct (nth_error ps k) as [pr|] eqn:E; [|discriminate]. apply N.eqb_eq in Hk. subst b.
+      apply (wf_prod e nnts nterms ps (pl_wf c Hpl) pr). eapply nth_error_In. exact E.
+  Qed.
+
+  (* the closure condition of item_ok for a nonterminal b after the dot *)
+  Lemma closure_items_ok s st p d b pr :
+    nth_error all s = Some st -> In (p, d) (pds (ms_items st)) ->
+    get_prod g0 p = Some pr -> nth_error (rhs pr) d = Some (NT b) -> sym_at ps e p d = Some (NT b) ->
+    forallb (fun q => has_litem ann stop s q 0 (after FT0 NT0 stop pr (litem_pd p d))) (prods_of g0 b) = true.
+  Proof.
+    intros Hs Hin Hp Hd Hsym. destruct (state_of s st Hs) as [_ [Hc0 _]].
+    apply forallb_forall. intros q Hq. rewrite prods_of_g0 in Hq.
+    destruct (prods_of_nonzero b q d p Hq Hsym) as (Hq0 & Hql & Hb).
+    apply (has_litem_intro s st q 0 _ Hs (Hc0 p d b Hin Hsym q Hq)).
+    intros y Hy. rewrite eff_L_pd. apply N.eqb_neq in Hq0. rewrite Hq0, Hql.
+    eapply after_sub; eassumption.
+  Qed.
+
+  Lemma item_ok_built s st p d :
+    nth_error all s = Some st -> In (p, d) (pds (ms_items st)) ->
+    item_ok g0 t ann FT0 NT0 stop s (litem_pd p d) = true.
+  Proof.
+    intros Hs Hin. destruct (state_of s st Hs) as [[(Hnd & Hpred & Hvalid) _] [Hc0 Hedge]].
+    unfold item_ok. change (li_p (litem_pd p d)) with p. change (li_d (litem_pd p d)) with d.
+    destruct (N.eq_dec p 0) as [->|Hne].
+    - (* the augmented production *)
+      rewrite get_prod_g0_0. cbn [rhs].
+      assert (Hraw0 : forall k, sym_at ps e 0 k = nth_error [NT s0; T stop] k).
+      { intros k. rewrite sym_at_strip, rhs_raw_0, strip_prod0. reflexivity. }
+      destruct d as [|[|d]].
+      + cbn [nth_error]. pose proof (Hedge 0 0%nat (NT s0) Hin (Hraw0 0%nat)) as He.
+        cbn [edge] in He. destruct He as (tgt & st' & Hg & Ht' & Hin').
+        rewrite (goto_eq s st s0 Hs), Hg. apply andb_true_iff. split.
+        * apply (has_litem_intro tgt st' 0 1 _ Ht' Hin'). intros x Hx. exact Hx.
+        * apply (closure_items_ok s st 0 0 s0 _ Hs Hin get_prod_g0_0); [reflexivity|apply Hraw0].
+      + cbn [nth_error]. rewrite N.eqb_refl.
+        pose proof (Hedge 0 1%nat (T stop) Hin (Hraw0 1%nat)) as He. cbn [edge] in He.
+        rewrite N.eqb_refl in He. apply existsb_action.
+        apply (cell_keeps s st stop [Accept] Accept Hs He). left. reflexivity.
+      + exfalso. destruct (Hpred 0 (S d) Hin) as (X & HX & Hns). rewrite Hraw0 in HX.
+        destruct d as [|d]; cbn in HX; [|destruct d; discriminate].
+        inversion HX; subst X. rewrite sym_eqb_refl in Hns. discriminate.
+    - pose proof (Hvalid p d Hin) as Hv.
+      destruct (nth_error ps (N.to_nat p)) as [praw|] eqn:Eraw; [|apply nth_error_None in Eraw; lia].
+      rewrite (get_prod_g0 p Hne), Eraw. cbn [option_map rhs].
+      assert (Hraw : rhs_raw ps p = rhs praw) by (unfold rhs_raw; rewrite Eraw; reflexivity).
+      assert (Hsym : sym_at ps e p d = nth_error (strip e (rhs praw)) d) by (rewrite sym_at_strip, Hraw; reflexivity).
+      assert (Hp' : get_prod g0 p = Some (mkProd (lhs praw) (strip e (rhs praw)))).
+      { rewrite (get_prod_g0 p Hne), Eraw. reflexivity. }
+      destruct (nth_error (strip e (rhs praw)) d) as [[a|b]|] eqn:Ed.
+      + (* a terminal: SHIFT *)
+        assert (Ha : a <> stop).
+        { intros ->. destruct ps_shape as (p0 & rest & Eps & _ & _).
+          apply (pl_stop1 c Hpl praw).
+          - rewrite Eps. cbn [tl]. rewrite Eps in Eraw.
+            destruct (N.to_nat p) as [|k] eqn:Ek; [lia|]. cbn in Eraw. eapply nth_error_In. exact Eraw.
+          - apply nth_error_In in Ed. unfold strip in Ed. apply filter_In in Ed. tauto. }
+        pose proof (Hedge p d (T a) Hin Hsym) as He. cbn [edge] in He.
+        apply N.eqb_neq in Ha. rewrite Ha in He. destruct He as (tgt & st' & Hact & Ht' & Hin').
+        apply existsb_exists. exists (Shift tgt). split.
+        * apply (cell_keeps s st a [Shift tgt] (Shift tgt) Hs Hact). left. reflexivity.
+        * apply (has_litem_intro tgt st' p (S d) _ Ht' Hin'). intros x Hx. exact Hx.
+      + (* a nonterminal: GOTO and closure *)
+        pose proof (Hedge p d (NT b) Hin Hsym) as He. cbn [edge] in He.
+        destruct He as (tgt & st' & Hg & Ht' & Hin').
+        rewrite (goto_eq s st b Hs), Hg. apply andb_true_iff. split.
+        * apply (has_litem_intro tgt st' p (S d) _ Ht' Hin'). intros x Hx. exact Hx.
+        * apply (closure_items_ok s st p d b _ Hs Hin Hp'); [exact Ed|exact Hsym].
+      + (* the dot at the end: REDUCE on every terminal of FOLLOW(lhs) *)
+        apply N.eqb_neq in Hne. rewrite Hne. rewrite eff_L_pd, Hne.
+        apply forallb_forall. intros a Ha. apply existsb_action.
+        apply (cell_reduce s st p d a Hs Hin); [|exact Ha].
+        rewrite Hraw. apply nth_error_None in Ed.
+        destruct d as [|d]; [lia|].
+        destruct (Hpred p d Hin) as (X & HX & _). rewrite sym_at_strip, Hraw in HX.
+        assert (d < length (strip e (rhs praw)))%nat by (apply nth_error_Some; congruence). lia.
+  Qed.
+
+  Lemma states_complete_built : states_complete g0 t ann FT0 NT0 stop 0 ann = true.
+  Proof.
+    assert (Hgen : forall k l, (forall j its, nth_error l j = Some its ->
+                                  forall i, In i its -> item_ok g0 t ann FT0 NT0 stop (k + j) i = true) ->
+                               states_complete g0 t ann FT0 NT0 stop k l = true).
+    { intros k l. revert k. induction l as [|its r IH]; intros k H; cbn [states_complete]; [reflexivity|].
+      apply andb_true_iff. split.
+      - apply forallb_forall. intros i Hi. specialize (H 0%nat its eq_refl i Hi).
+        rewrite Nat.add_0_r in H. exact H.
+      - apply IH. intros j its' Hj i Hi. specialize (H (S j) its' Hj i Hi).
+        replace (S k + j)%nat with (k + S j)%nat by lia. exact H. }
+    apply Hgen. intros j its Hj i Hi. cbn [Nat.add]. unfold ann in Hj.
+    rewrite map_map, nth_error_map in Hj. destruct (nth_error all j) as [st|] eqn:Es; [|discriminate].
+    cbn in Hj. inversion Hj; subst its. apply in_map_iff in Hi. destruct Hi as (it & <- & Hit).
+    rewrite litem_of_pd. apply (item_ok_built j st _ _ Es). apply pds_In. exists it. auto.
+  Qed.
+
+  Theorem table_complete_built : table_complete g0 t ann FT0 NT0 stop = true.
+  Proof.
+    unfold table_complete. rewrite first_closed_std, (pl_aug c Hpl), states_complete_built.
+    cbn [andb]. apply andb_true_iff. split.
+    - apply andb_true_iff. split; [|reflexivity]. apply Nat.eqb_eq. unfold ann.
+      rewrite !map_length. symmetry. exact table_length.
+    - destruct (si_state0 _ _ _ _ _ Hinv) as (st0 & Hs0 & Hin0).
+      rewrite (ann_of_nth 0 st0 Hs0). apply existsb_exists.
+      apply pds_In in Hin0. destruct Hin0 as (it & Hit & Hpd). exists (litem_of c fo it).
+      split; [apply in_map; exact Hit|]. rewrite litem_of_pd. unfold pd in Hpd. inversion Hpd as [[Ep Ed]].
+      rewrite Ep, Ed. reflexivity.
+  Qed.
 End Built.
+
+(* ---- the end-to-end statements ------------------------------------------------------------- *)
+Theorem slr_table_complete c b :
+  plain_ok c = true -> tc_lr1 c = false -> create_table c = BOk b ->
+  table_complete (cfg_std c) (tb_table b) (ann_of_built c b)
+                 (fst_std c (tb_first b)) (nul_std c (tb_first b)) (tc_stop c) = true.
+Proof.
+  intros Hok Hlr0 H. pose proof (plain_ok_plain c Hok) as Hpl. unfold create_table in H.
+  destruct (first_sets (tc_empty c) (tc_ffuel c) (tc_nnts c) (tc_prods c)) as [fs|] eqn:Hfs; [|discriminate].
+  destruct (find _ (nts_of (tc_nnts c))); [discriminate|].
+  destruct (follow_sets (tc_empty c) (tc_ffuel c) fs (tc_nnts c) (tc_prods c)) as [fo|] eqn:Hfo; [|discriminate].
+  apply bbind_ok in H. destruct H as (all & Hauto & H).
+  destruct (reduce_all c fo all all) as [t|] eqn:Ht; [|discriminate]. inversion H; subst b. clear H.
+  unfold automaton in Hauto. rewrite Hlr0, (pl_swap c Hpl) in Hauto.
+  apply bbind_ok in Hauto. destruct Hauto as (all1 & Hbuild & Hrest). inversion Hrest; subst all1.
+  assert (Hne : tc_prods c <> []).
+  { destruct (ps_shape c Hpl) as (p0 & rest & Eps & _). rewrite Eps. discriminate. }
+  pose proof (build_loop_spec _ _ _ _ _ _ _ _ _ _ _ Hbuild (sinv_init _ _ _ Hne)) as Hinv.
+  cbn [tb_table tb_first]. unfold ann_of_built. cbn [tb_items tb_follow].
+  exact (table_complete_built c Hpl Hlr0 fs fo all t Hfs Hfo Hinv Ht).
+Qed.
+
+(* hence every derivation of the grammar has an accepting run on the model-built table *)
+Theorem slr_table_accepts c b :
+  plain_ok c = true -> tc_lr1 c = false -> create_table c = BOk b ->
+  forall (d tr : tree),
+    wf_tree (cfg_std c) tr -> root_sym (cfg_std c) tr = Some (NT (start_nt c)) ->
+    exists st, lsteps (cfg_std c) (tb_table b) (tc_stop c) ([(O, d)], leaves tr) (st, []) /\
+               laccepts (tb_table b) (tc_stop c) st tr.
+Proof.
+  intros Hok Hlr0 H d tr Hwf Hroot.
+  pose proof (slr_table_complete c b Hok Hlr0 H) as Htc.
+  apply (lr_machine_complete _ _ _ _ _ _ Htc (start_nt c) d tr); [|exact Hwf|exact Hroot].
+  exists (mkProd (aug_nt c) [NT (start_nt c)]). split; [|reflexivity].
+  apply get_prod_g0_0. apply plain_ok_plain. exact Hok.
+Qed.
